@@ -156,7 +156,8 @@ PD = 'self->_planData'
 PL_SELF = [fresh('self'), fresh(PD, '*' + PD), 'self->_bounds == &%s->tasksBounds' % PD]
 PL_UNWIND = {'tl_on_free_list.0': CAPMAX + 1, 'tl_wf.0': CAPMAX + 1, 'pl_wf.0': CAPMAX + 1, 'pl_wf.1': CAPMAX + 1, 'pl_nth.0': CAPMAX + 1}
 def pl(id_, target, fn, contract, cls=None, **kw):
-    u = dict(id='c10.plan.' + id_, witness=W, recs=PL_RECS, opaque=[r'^Ctx$', r'LoggerInterfaceT<'], props=['C10', 'C18'],
+    # (C08 too: "tasks that do not fire stay in the plan in their original order" rests on the same list structure)
+    u = dict(id='c10.plan.' + id_, witness=W, recs=PL_RECS, opaque=[r'^Ctx$', r'LoggerInterfaceT<'], props=['C10', 'C08', 'C18'],
              target=dict(cls=cls or r'^ffsm2::detail::PlanT<.*>>$', **target), consts=PL_CONSTS, ghost=PL_GHOST,
              array_max={'TaskListT._items': CAPMAX, 'TaskLinks._items': CAPMAX, 'Payloads._items': CAPMAX, 'TasksBits._storage': 32},
              need_consts=['TaskListT.CAPACITY', 'PlanT.TASK_CAPACITY'], unwindset=dict(PL_UNWIND), contracts={fn: contract},
@@ -182,7 +183,7 @@ OLDCNT = '__CPROVER_old(%s)' % CNT
 WF = 'pl_wf(%s)' % PD
 def append_contract(stored, extra_req=[]):
     return dict(
-        requires=PL_SELF + FIX_NTH + [WF, '%s == %s' % (TC, CAP)] + extra_req,
+        requires=PL_SELF + FIX_NTH + [WF] + extra_req,
         assigns=['__CPROVER_object_whole(%s)' % PD],
         ensures=[('C10', WF),
                  # appending succeeds exactly when fewer than capacity tasks are present ...
@@ -209,7 +210,7 @@ TASK_SAME = lambda idx: ' && '.join('%s->tasks._items[%s].%s == __CPROVER_old(%s
 UNITS += [
     # removal (through an iterator or by consumption): exactly that task leaves, the rest keep their relative order
     pl('remove', dict(name='remove', nparams=1), 'PlanT__remove', dict(
-        requires=PL_SELF + FIX_NTH + [WF, '%s == %s' % (TC, CAP), 'g_pos < %s && pl_nth(%s, g_pos) == index' % (CNT, PD), 'g_q < ' + CAP, 'g_was_live == tl_live(&%s->tasks, g_q)' % PD],
+        requires=PL_SELF + FIX_NTH + [WF, 'g_pos < %s && pl_nth(%s, g_pos) == index' % (CNT, PD), 'g_q < ' + CAP, 'g_was_live == tl_live(&%s->tasks, g_q)' % PD],
         assigns=['__CPROVER_object_whole(%s)' % PD],
         ensures=[('C10', WF), ('C10', '%s == %s - 1' % (CNT, OLDCNT)),
                  ('C10', 'pl_nth(%s, g_k) == (g_k < g_pos ? g_nth : g_nth1)' % PD),
@@ -217,24 +218,24 @@ UNITS += [
                  ('C10', '!tl_live(&%s->tasks, index)' % PD)])),
     # clear: every slot becomes available again (full capacity after any history)
     pl('clearTasks', dict(name='clearTasks', nparams=0), 'PlanT__clearTasks', dict(
-        requires=PL_SELF + [WF, '%s == %s' % (TC, CAP)],
+        requires=PL_SELF + [WF],
         assigns=['__CPROVER_object_whole(%s)' % PD],
         ensures=[('C10', WF), ('C10', '%s == 0' % CNT), ('C10', '%s->tasksBounds.first == 255 && %s->tasksBounds.last == 255' % (PD, PD))]),
        unwindset=dict(PL_UNWIND, **{'PlanT__clearTasks.0': CAPMAX + 1})),
     pl('op_bool', dict(name='operator bool', nparams=0), 'PlanT__op_bool', dict(
-        requires=PL_SELF + [WF, '%s == %s' % (TC, CAP)], assigns=[],
+        requires=PL_SELF + [WF], assigns=[],
         ensures=[('C10', '__CPROVER_return_value == (%s != 0)' % CNT)])),
 ]
 
 # ---- iterators: begin at the first task, ++ moves to the cached next, which survives removal of the current task
 IPD = 'self->_plan->_planData'
-IT_SELF = [fresh('self'), fresh('self->_plan', '*self->_plan'), fresh(IPD, '*' + IPD), 'self->_plan->_bounds == &%s->tasksBounds' % IPD, 'pl_wf(%s)' % IPD, '%s == %s' % (TC, CAP), 'g_k < %d' % CAPMAX]
+IT_SELF = [fresh('self'), fresh('self->_plan', '*self->_plan'), fresh(IPD, '*' + IPD), 'self->_plan->_bounds == &%s->tasksBounds' % IPD, 'pl_wf(%s)' % IPD, 'g_k < %d' % CAPMAX]
 def it_unit(id_, cls, target, fn, contract, **kw):
     return pl(id_, target, fn, contract, cls=cls, **kw)
 IT = r'^ffsm2::detail::PlanT<.*>::Iterator$'
 UNITS += [
     it_unit('Iterator.ctor', IT, dict(kind='ctor', name='Iterator', nparams=1), 'Iterator__ctor1', dict(
-        requires=[fresh('self'), fresh('plan'), fresh('plan->_planData', '*plan->_planData'), 'plan->_bounds == &plan->_planData->tasksBounds', 'pl_wf(plan->_planData)', '%s == %s' % (TC, CAP)],
+        requires=[fresh('self'), fresh('plan'), fresh('plan->_planData', '*plan->_planData'), 'plan->_bounds == &plan->_planData->tasksBounds', 'pl_wf(plan->_planData)'],
         assigns=['*self'],
         ensures=[('C10', 'self->_plan == plan && self->_curr == pl_nth(plan->_planData, 0) && self->_next == pl_nth(plan->_planData, 1)')])),
     it_unit('Iterator.op_bool', IT, dict(name='operator bool', nparams=0), 'Iterator__op_bool', dict(
@@ -254,7 +255,7 @@ UNITS += [
 ]
 
 CPD = 'self->_planData'
-CP_SELF = [fresh('self'), fresh(CPD, '*' + CPD), 'self->_bounds == &%s->tasksBounds' % CPD, 'pl_wf(%s)' % CPD, 'CPlanT__TASK_CAPACITY == ' + CAP]
+CP_SELF = [fresh('self'), fresh(CPD, '*' + CPD), 'self->_bounds == &%s->tasksBounds' % CPD, 'pl_wf(%s)' % CPD]
 CP = r'^ffsm2::detail::CPlanT<.*>>$'
 def cp_unit(id_, target, fn, contract):
     return pl(id_, target, fn, contract, cls=CP, need_consts=['TaskListT.CAPACITY', 'CPlanT.TASK_CAPACITY'])
@@ -267,7 +268,7 @@ UNITS += [
             ensures=[('C10', '__CPROVER_return_value == &%s->tasks._items[pl_nth(%s, (uint8_t)(%s->tasks._count - 1))]' % (CPD, CPD, CPD))])),
     # PlanT::clear(): all tasks released, every task report dropped (loop over the state count closed by a loop contract)
     pl('clear', dict(name='clear', nparams=0), 'PlanT__clear', dict(
-        requires=PL_SELF + [WF, '%s == %s' % (TC, CAP)],
+        requires=PL_SELF + [WF],
         assigns=['__CPROVER_object_whole(%s)' % PD],
         ensures=[('C10', WF), ('C10', '%s == 0' % CNT), ('C09', '%s->planExists == __CPROVER_old(%s->planExists)' % (PD, PD)),
                  ('C08', implies('g_q < PlanT__STATE_COUNT', bit('%s->tasksSuccesses._storage' % PD, 'g_q') + ' == 0 && ' + bit('%s->tasksFailures._storage' % PD, 'g_q') + ' == 0'))],
@@ -285,10 +286,10 @@ UNITS += [
 CIT = r'^ffsm2::detail::CPlanT<.*>::Iterator$'
 def cit_unit(id_, target, fn, contract):
     return pl(id_, target, fn, contract, cls=CIT, need_consts=['TaskListT.CAPACITY', 'CPlanT.TASK_CAPACITY'])
-CIT_SELF = [fresh('self'), fresh('self->_plan', '*self->_plan'), fresh(IPD, '*' + IPD), 'self->_plan->_bounds == &%s->tasksBounds' % IPD, 'pl_wf(%s)' % IPD, 'CPlanT__TASK_CAPACITY == ' + CAP, 'g_k < %d' % CAPMAX]
+CIT_SELF = [fresh('self'), fresh('self->_plan', '*self->_plan'), fresh(IPD, '*' + IPD), 'self->_plan->_bounds == &%s->tasksBounds' % IPD, 'pl_wf(%s)' % IPD, 'g_k < %d' % CAPMAX]
 UNITS += [
     cit_unit('CPlan.Iterator.ctor', dict(kind='ctor', name='Iterator', nparams=1), '@target', dict(
-        requires=[fresh('self'), fresh('plan'), fresh('plan->_planData', '*plan->_planData'), 'plan->_bounds == &plan->_planData->tasksBounds', 'pl_wf(plan->_planData)', 'CPlanT__TASK_CAPACITY == ' + CAP],
+        requires=[fresh('self'), fresh('plan'), fresh('plan->_planData', '*plan->_planData'), 'plan->_bounds == &plan->_planData->tasksBounds', 'pl_wf(plan->_planData)'],
         assigns=['*self'],
         ensures=[('C10', 'self->_plan == plan && self->_curr == pl_nth(plan->_planData, 0) && self->_next == pl_nth(plan->_planData, 1)')])),
     cit_unit('CPlan.Iterator.op_bool', dict(name='operator bool', nparams=0), '@target', dict(
@@ -308,7 +309,7 @@ UNITS += [
         requires=IT_SELF + ['g_k < %s->tasks._count' % IPD, 'self->_curr == pl_nth(%s, g_k)' % IPD], assigns=[],
         ensures=[('C10', '__CPROVER_return_value == &%s->tasks._items[pl_nth(%s, g_k)]' % (IPD, IPD))])),
     pl('begin', dict(name='begin', nparams=0), '@target', dict(
-        requires=PL_SELF + [WF, '%s == %s' % (TC, CAP)], assigns=[],
+        requires=PL_SELF + [WF], assigns=[],
         ensures=[('C10', '__CPROVER_return_value._plan == self && __CPROVER_return_value._curr == pl_nth(%s, 0) && __CPROVER_return_value._next == pl_nth(%s, 1)' % (PD, PD))])),
 ]
 # the precondition every PlanT / CPlanT unit starts from (the view refers to the plan data and to *its* bounds) is what the constructors establish
